@@ -709,3 +709,113 @@ func (c *Ctx) providerErrors(rule string) {
 		r.Info(rule, "ab/oauth2", "provider detail functions", "-", "no provider detail fetcher with error-returning calls found")
 	}
 }
+
+// refusalConfigMapped: every module that protects its routes with the
+// authentication middleware passes, as the refusal mode, what the
+// configuration says: Modules.ResponseOnUnauthed when it is set, otherwise a
+// redirect when Modules.RoutesRedirectOnUnauthed is set, otherwise the zero
+// mode (404). "The response is exactly the configured refusal" starts here.
+func (c *Ctx) refusalConfigMapped(rule string) {
+	r := c.R
+	redirect := c.P.ConstInt("", "RespondRedirect")
+	n := 0
+	for _, fn := range c.P.Funcs {
+		if pkgOf(fn) == "ab" || strings.HasSuffix(pkgOf(fn), "/mocks") {
+			continue
+		}
+		for _, call := range CallsTo(fn, "ab.MountedMiddleware2", "ab.Middleware2") {
+			idx := 3
+			if Callee(call) == "ab.Middleware2" {
+				idx = 2
+			}
+			a := Arg(call, idx)
+			phi, isPhi := a.(*ssa.Phi)
+			if !isPhi {
+				continue // a fixed mode chosen by the module
+			}
+			n++
+			name := FuncName(fn)
+			pos := posf(c, call)
+			ok := true
+			why := ""
+			seenCfg, seenRedir, seenZero := false, false, false
+			for i, e := range phi.Edges {
+				fs := FactsAtEdge(phi.Block().Preds[i], phi.Block())
+				cfgSet := HasFact(fs, func(f Fact) bool {
+					rel := f.Rel()
+					k, isC := ConstInt(rel.Y)
+					return rel.Op == token.NEQ && isC && k == 0 && fieldLoadName(rel.X) == "ResponseOnUnauthed"
+				})
+				cfgUnset := HasFact(fs, func(f Fact) bool {
+					rel := f.Rel()
+					k, isC := ConstInt(rel.Y)
+					return rel.Op == token.EQL && isC && k == 0 && fieldLoadName(rel.X) == "ResponseOnUnauthed"
+				})
+				redirOn := HasFact(fs, func(f Fact) bool {
+					rel := f.Rel()
+					return rel.B != nil && rel.Pol && fieldLoadName(rel.B) == "RoutesRedirectOnUnauthed"
+				})
+				redirOff := HasFact(fs, func(f Fact) bool {
+					rel := f.Rel()
+					return rel.B != nil && !rel.Pol && fieldLoadName(rel.B) == "RoutesRedirectOnUnauthed"
+				})
+				switch {
+				case fieldLoadName(e) == "ResponseOnUnauthed":
+					seenCfg = true
+					if !cfgSet {
+						ok, why = false, "the configured mode is used on an edge where ResponseOnUnauthed != 0 is not established"
+					}
+				default:
+					k, isC := ConstInt(e)
+					switch {
+					case isC && k == redirect:
+						seenRedir = true
+						if !(cfgUnset && redirOn) {
+							ok, why = false, "RespondRedirect is chosen without ResponseOnUnauthed == 0 && RoutesRedirectOnUnauthed"
+						}
+					case isC && k == 0:
+						seenZero = true
+						if !(cfgUnset && redirOff) {
+							ok, why = false, "the default mode is chosen although a refusal mode is configured"
+						}
+					default:
+						ok, why = false, "unexpected refusal mode "+SafeString(e)
+					}
+				}
+			}
+			if ok && !(seenCfg && seenRedir && seenZero) {
+				ok, why = false, "not all three configuration cases are distinguished"
+			}
+			r.Check(ok, rule, name, Callee(call)+"(…, refusal mode)", pos, "ResponseOnUnauthed, else redirect if RoutesRedirectOnUnauthed, else default", "the refusal mode handed to the authentication middleware does not follow the configuration ("+why+"): protected routes of this module refuse with a different response than the configured one")
+		}
+	}
+	if n < 3 {
+		r.Unknown(rule, "", "census", "-", sprintf("only %d modules derive the refusal mode from the configuration (confirmed by hand: 6)", n))
+	}
+}
+
+// oauthRememberLiteral: the OAuth2 callback turns the pass-along parameter
+// rm into a remember-me wish only for the literal value "true".
+func (c *Ctx) oauthRememberLiteral(rule string) {
+	r := c.R
+	end := c.P.FuncOpt("(*ab/oauth2.OAuth2).End")
+	if end == nil {
+		return
+	}
+	n := 0
+	for _, call := range CallsTo(end, fnWithValue) {
+		if k, isC := ConstStr(stripMI(Arg(call, 1))); !isC || k != "values" {
+			continue
+		}
+		n++
+		ok := HoldsAt(call.(ssa.Instruction), func(f Fact) bool {
+			rel := f.Rel()
+			s, isC := ConstStr(rel.Y)
+			return rel.Op == token.EQL && isC && s == "true"
+		})
+		r.Check(ok, rule, FuncName(end), "ctx[values]=RMTrue only for rm == \"true\"", posf(c, call), "the wish is taken from the literal value", "the callback marks the request as wanting to be remembered without the pass-along value being \"true\": a remember cookie is issued that nobody asked for")
+	}
+	if n == 0 {
+		r.Info(rule, FuncName(end), "ctx[values]", "-", "the callback does not carry a remember-me wish")
+	}
+}
